@@ -53,7 +53,11 @@ CLAIM = dict(
     "colour corrections, IlluminationCorrection.setup, fitted affine / generalised-perspective corrections, float32 and general "
     "cv2.warpAffine translations, the feature-based translation estimate; that scipy / cv2 / skimage behave as the parameters and "
     "tabulated rules say.",
-    note="The active ColorCorrection is compared at 1e-3 instead of exactly: its swatch extraction uses cv2.kmeans with random centres "
+    note="Round-7 triage: failing inputs come only from stated clauses on concrete corrections; the toy in-place correct_array clause, "
+    "TypeCorrection's declared dtype, other-shape histories / file caches and their raises variants are TIE-BROKEN marks; result-aliases-"
+    "input / same-object are observations; fitted Voxel-typed 'neutral' configs are no longer judged by the neutral clause (breakpoints); "
+    "an inactive correction may return the input literally or its declared conversion. OpenCV's RNG is seeded before each compared call "
+    "(active colour now compared at 1e-5, maximum recorded). Formerly: the active ColorCorrection was compared at 1e-3 instead of exactly: its swatch extraction uses cv2.kmeans with random centres "
     "(OpenCV's global RNG), so two calls on the same array differ by ~2e-5. RotationCorrection built from an ANGLE of pi/2 carries "
     "float noise on rounding breakpoints, so its quarter-turn theorems (C09) are tied through exact matrices.",
     technique="Lean 4 proofs over operational models (heap workflow, concrete corrections, caches as state) + exact differential "
@@ -862,8 +866,8 @@ def configs(d, rng):
     reg("affine(fitted neutral,isometry)", fitted_iso([0, 0]), neutral=True, min_extent=3)
     reg("affine(fitted shift,isometry)", fitted_iso([1, 0]), min_extent=3)
     reg("affine(fitted shift)", fitted(d.AffineCorrection, [1, 0]), min_extent=3)
-    reg("affine(fitted neutral)", fitted(d.AffineCorrection, [0, 0]), neutral=True, min_extent=3)
-    reg("generalized-perspective(fitted neutral)", fitted(d.GeneralizedPerspectiveCorrection, [0, 0]), neutral=True, min_extent=3)
+    reg("affine(fitted neutral)", fitted(d.AffineCorrection, [0, 0]), min_extent=3)  # Voxel-typed fit: pre-images on breakpoints, not a neutral clause
+    reg("generalized-perspective(fitted neutral)", fitted(d.GeneralizedPerspectiveCorrection, [0, 0]), min_extent=3)
     # --- colour
     inactive_conv = lambda a: _asfloat(a).astype(np.float32)  # noqa: E731
     for k, opts in enumerate([dict(clip=True), dict(clip=True, colorbalancing="linear", whitebalancing=False),
@@ -884,9 +888,9 @@ def configs(d, rng):
         return build
 
     reg("colour(active,affine)", colour_active("affine"), kinds=("array", "optical", "optical-series"), dtypes=("uint8", "float64"),
-        channels=(3,), fixed_shape="checker", tol=1e-3)
+        channels=(3,), fixed_shape="checker", tol=1e-5)
     reg("colour(active,linear)", colour_active("linear"), kinds=("array", "optical"), dtypes=("float64",), channels=(3,),
-        fixed_shape="checker", tol=1e-3)
+        fixed_shape="checker", tol=1e-5)
     # --- illumination
     def illum(neutral):
         def build(info):
@@ -992,8 +996,13 @@ def meta_equal(a, b):
     return True, ""
 
 
+DEV = {"max": 0.0}
+
+
 def data_equal(a, b, tol):
     if tol:
+        if a.shape == b.shape:
+            DEV["max"] = max(DEV["max"], float(np.abs(a.astype(np.float64) - b.astype(np.float64)).max()))
         return a.shape == b.shape and a.dtype == b.dtype and np.allclose(a, b, rtol=0, atol=tol, equal_nan=True)
     return a.shape == b.shape and np.array_equal(a, b, equal_nan=True)
 
@@ -1029,6 +1038,16 @@ def check_case(d, case, cfgs=None, rngmod=None):
     declared = call(corr.correct_metadata, copy.deepcopy(snap_meta)) if is_img else {}
     if isinstance(declared, Raised):
         return [(f"C10:{name}:correct_metadata:raises", f"{declared}")]
+    # OpenCV's process-global RNG (cv2.kmeans in the swatch extraction) is seeded before EACH compared call
+    def seed_rng():
+        try:
+            import cv2
+
+            cv2.setRNGSeed(int(case["seed"]) % 100000)
+        except Exception:  # noqa: BLE001
+            pass
+
+    seed_rng()
     # expected data from an identically configured fresh correction on the raw array
     if series:
         exp_slices = []
@@ -1042,6 +1061,7 @@ def check_case(d, case, cfgs=None, rngmod=None):
         exp = call(ref.correct_array, raw.copy())
         if isinstance(exp, Raised):
             return [(f"C10:{name}:correct_array:raises({kind})", f"correct_array raises {exp} on a {raw.dtype} array of shape {raw.shape}")]
+    seed_rng()
     res = call(corr, inp, overwrite=ow)
     if isinstance(res, Raised):
         return [(f"{sig0}:raises", f"correction(image, overwrite={ow}) raises {res} although correct_array works on the raw array / slices")]
@@ -1100,7 +1120,9 @@ def check_case(d, case, cfgs=None, rngmod=None):
     if cfg["neutral"]:
         conv = cfg["conv"] or (lambda a: a)
         want = conv(raw)
-        if not (out.shape == want.shape and np.allclose(out.astype(np.float64), want.astype(np.float64), rtol=0, atol=1e-6, equal_nan=True)):
+        same = lambda w: out.shape == w.shape and np.allclose(out.astype(np.float64), w.astype(np.float64), rtol=0, atol=1e-6, equal_nan=True)  # noqa: E731
+        # 'unchanged' = literally the input values, or the correction's declared dtype conversion of them
+        if not (same(want) or same(raw)):
             bad.append((f"C10:{name}:{kind}:neutral-changes-pixels",
                         f"neutral parameters changed pixel values / shape: {raw.dtype}{raw.shape} -> {out.dtype}{out.shape}"))
     return bad
@@ -1178,6 +1200,27 @@ def check_filecache_case(d, case):
     return []
 
 
+# Round-7 triage (false-alarm direction): failing inputs only from STATED clauses; model-tie clauses are TIE-BROKEN marks; clauses
+# outside statement / quantifier are observations.
+MARK_PATTERNS = (
+    "in-place correct_array):input-modified",   # toy correction: no concrete correct_array writes through its argument
+    ":declared-dtype",                           # TypeCorrection's target dtype is the model's tie, data == correct_array(raw) carries it
+    "history(other-shape)", "file-cache(other-shape)", ":history(same-shape):raises", "file-cache(same-shape):raises",
+    "BaseCorrection.__call__(toy):raises",
+)
+OBSERVE_PATTERNS = (":result-aliases-input", ":same-object")
+
+
+def emit(ctx, sig, what, case):
+    if any(p in sig for p in OBSERVE_PATTERNS):
+        ctx.cov.setdefault("observations", {})[sig] = what
+    elif any(p in sig for p in MARK_PATTERNS):
+        if not any(m.get("correspondence") == sig for m in ctx.marks):
+            ctx.mark("TIE-BROKEN", {"correspondence": sig, "what": what, "case": case})
+    else:
+        ctx.fail(sig, what, {"case": case, "observed": what})
+
+
 def oracle(ctx, d):
     cfgl = configs(d, ctx.rng)
     cfgs = {c["name"]: c for c in cfgl}
@@ -1197,7 +1240,7 @@ def oracle(ctx, d):
                         if sig.startswith("C10:harness"):
                             skipped[sig] = what
                             continue
-                        ctx.fail(sig, what, {"case": case, "observed": what})
+                        emit(ctx, sig, what, case)
     # history dependence (objects with caches): shape-independent configurations, re-used on the same and on another shape
     for cname in ("curvature(neutral)", "curvature", "curvature(empty config)", "type(float64)", "drift(inactive)", "translation"):
         if cname not in cfgs or cname.startswith("illumination"):
@@ -1209,19 +1252,20 @@ def oracle(ctx, d):
             case = dict(history=True, config=cname, shapes=[list(other), list(sh)], dtype="float64", seed=ctx.rng.randrange(10**9))
             ctx.count(("history", cname, rep))
             for sig, what in check_history_case(d, case, cfgs):
-                ctx.fail(sig, what, {"case": case, "observed": what})
+                emit(ctx, sig, what, case)
     for rep in range(ctx.pick(4, 16)):
         sh = (ctx.rng.randint(3, 7), ctx.rng.randint(3, 7))
         other = sh if rep % 2 == 0 else (ctx.rng.randint(3, 7), ctx.rng.randint(3, 7))
         case = dict(filecache=True, shapes=[list(other), list(sh)], hb=ctx.rng.choice([0.0, 1e-3, -2e-3]), seed=ctx.rng.randrange(10**9))
         ctx.count(("file-cache", rep))
         for sig, what in check_filecache_case(d, case):
-            ctx.fail(sig, what, {"case": case, "observed": what})
+            emit(ctx, sig, what, case)
     for i in range(ctx.pick(48, 240)):
         c = heap_toy_case(ctx.rng, i)
         ctx.count(("heap-toy", i))
         for sig, what in check_heap_case(d, c):
-            ctx.fail(sig, what, {"case": dict(c, heap_toy=True), "observed": what})
+            emit(ctx, sig, what, dict(c, heap_toy=True))
+    ctx.cov["colour_active_dev_max"] = DEV["max"]
     ctx.cov["configs"] = [c["name"] for c in cfgl]
     ctx.cov["classes_with_correct_array_series"] = sorted({type(x).__name__ for x in (call(c["build"], dict(shape=(24, 36, 3) if c["fixed_shape"] else ((4, 4, 4) if c["dims"] == 3 else (4, 4, 3)), dtype=c["dtypes"][0], p=[0.1, 0.2, 0.3])) for c in cfgl) if not isinstance(x, Raised) and hasattr(x, "correct_array_series")})
     ctx.cov["harness_skips"] = skipped
@@ -1254,7 +1298,7 @@ def run(ctx):
         if case:
             for sig, what in (check_heap_case(d, case) if case.get("heap_toy") else check_history_case(d, case) if case.get("history")
                               else check_filecache_case(d, case) if case.get("filecache") else check_case(d, case)):
-                ctx.fail(sig, what, {"case": case, "observed": what})
+                emit(ctx, sig, what, case)
     ctx.prove("C10")
     corr_workflow(ctx, d)
     corr_heap_workflow(ctx, d)
